@@ -76,8 +76,9 @@ HELPERS = [
                "others_same(old(self), final(self))", "scope_meta_same(old(self), final(self))",
                "fits_all(op, operands@) || final(self).encoding_error is Some",
                "fresh(&sc(final(self)))", "ext(old(self), final(self))", "gen_s(old(self), final(self))", "starts(code(final(self))) == starts(code(old(self))).push(pos as int)",
-               "is_start(final(self), pos as int)", "op_at(code(final(self)), pos as int) == op", "code(final(self)).len() == code(old(self)).len() + ilen(op)"],
-      epilogue="assert(lns(self).subrange(0, lns(old(self)).len() as int) =~= lns(old(self))); assert forall|i: int| 0 <= i < lns(old(self)).len() implies lns(self)[i] == lns(old(self))[i] by { assert(lns(self).subrange(0, lns(old(self)).len() as int)[i] == lns(self)[i]); } lemma_emit(old(self), self, op, operands@); lemma_op_of_byte(op); assert forall|a: int, b: int| 0 <= a <= b <= verif_ret implies #[trigger] seg(self, a, b) == seg(old(self), a, b) by { assert(seg(self, a, b) =~= seg(old(self), a, b)); } assert(starts(code(self))[starts(code(old(self))).len() as int] == verif_ret);", props=["C01", "C13", "C14"]),
+               "is_start(final(self), pos as int)", "op_at(code(final(self)), pos as int) == op", "code(final(self)).len() == code(old(self)).len() + ilen(op)",
+               "code(final(self)).subrange(pos as int, code(final(self)).len() as int) == ins_bytes(op, operands@)"],
+      epilogue="assert(lns(self).subrange(0, lns(old(self)).len() as int) =~= lns(old(self))); assert forall|i: int| 0 <= i < lns(old(self)).len() implies lns(self)[i] == lns(old(self))[i] by { assert(lns(self).subrange(0, lns(old(self)).len() as int)[i] == lns(self)[i]); } lemma_emit(old(self), self, op, operands@); lemma_op_of_byte(op); assert(code(self).subrange(verif_ret as int, code(self).len() as int) =~= ins_bytes(op, operands@)); assert forall|a: int, b: int| 0 <= a <= b <= verif_ret implies #[trigger] seg(self, a, b) == seg(old(self), a, b) by { assert(seg(self, a, b) =~= seg(old(self), a, b)); } assert(starts(code(self))[starts(code(old(self))).len() as int] == verif_ret);", props=["C01", "C13", "C14"]),
     m("is_last_instruction", ret="r", requires=["self.scope_index < self.scopes@.len()"], ensures=["r == (code(self).len() > 0 && sc(self).last_ins.opcode == opcode)"]),
     m("replace_instruction", requires=["old(self).scope_index < old(self).scopes@.len()", "pos + new_instruction@.len() <= code(old(self)).len()"],
       ensures=["rest_same(old(self), final(self))", "lns(final(self)) == lns(old(self))",
@@ -173,11 +174,14 @@ COMPILE = [
     dict(kind="fn", file=C, path="LoopContext::new", ret="r", ensures=["r.label == label", "r.begin == position", "r.break_positions@.len() == 0"], props=["C01"]),
     dict(kind="fn", file=AS, path="Statement::is_expression", ret="r", ensures=["r == (*self is Expr)"], props=["C06"]),
     m("add_constant", ret="r", requires=PRE, ensures=["gen_s(old(self), final(self))", "final(self).scopes == old(self).scopes"], epilogue="lemma_gen_refl(old(self), self);"),
-    m("load_symbol", requires=PRE, ensures=["gen_s(old(self), final(self))", "code(final(self)).len() > code(old(self)).len()"], prologue=BCAST),
-    m("save_symbol", ret="r", requires=PRE, ensures=GEN_S + ["r is Ok ==> code(final(self)).len() > code(old(self)).len()"], prologue=BCAST),
+    m("load_symbol", requires=PRE, ensures=["gen_s(old(self), final(self))", "code(final(self)).len() > code(old(self)).len()", "appended_ins(old(self), final(self), load_op(sym.scope), sym.index)", "final(self).symtab == old(self).symtab"], prologue=BCAST, props=["C04", "C01", "C14"]),
+    m("save_symbol", ret="r", requires=PRE, ensures=GEN_S + ["r is Ok ==> code(final(self)).len() > code(old(self)).len()", "r is Ok ==> store_op(sym.scope) != Opcode::Invalid && appended_ins(old(self), final(self), store_op(sym.scope), sym.index)",
+                                                           "store_op(sym.scope) == Opcode::Invalid ==> r is Err"], prologue=BCAST, props=["C04", "C01", "C14"]),
     m("compile_infix_expr", ret="r", requires=PRE, ensures=GEN_S + ["r is Ok ==> code(final(self)).len() == code(old(self)).len() + 1", "r is Ok ==> last_line_is(old(self), final(self), line)",
                                                                      "r is Ok ==> sc(final(self)).last_ins.opcode == infix_opcode(operator@) && infix_opcode(operator@) != Opcode::Invalid"], prologue=BCAST + REV, props=["C13", "C01", "C14"]),
-    m("compile_block_statement", ret="r", requires=PRE, ensures=GEN_S, prologue=BCAST + REFL, attrs=NODEC, rewrites=[FORSTMT],
+    m("compile_block_statement", ret="r", requires=PRE, prologue=BCAST + REFL, attrs=NODEC, rewrites=[FORSTMT], props=["C04", "C01", "C14"],
+      # C04: the last thing a block does to the symbol table is to hide the bindings made deeper than the depth it was entered at
+      ensures=GEN_S + ["r is Ok ==> exists|t: SymbolTable| final(self).symtab == #[trigger] after_leave(&t, sc(old(self)).scope_depth)"],
       loops={0: dict(invariant=["verif_k <= verif_v@.len()", "ext0(old(self), self)", "sc(self).scope_depth == sc(old(self)).scope_depth + 1", "tail_ok(old(self), self)",
                                 "code(self).len() > code(old(self)).len() ==> fresh(&sc(self))"],
                      decreases="verif_v@.len() - verif_k", body_prologue=BCAST)}),
@@ -185,8 +189,11 @@ COMPILE = [
       loops={0: dict(invariant=["verif_k <= verif_v@.len()", "gen_s(old(self), self)"], decreases="verif_v@.len() - verif_k", body_prologue=BCAST)}),
     m("compile_program", ret="r", requires=PRE, ensures=GEN_S, attrs=NODEC),
     m("compile_let_stmt", ret="r", requires=PRE, ensures=GEN, attrs=NODEC),
-    m("compile_statement", ret="r", requires=PRE, props=["C06", "C01", "C14"],
-      ensures=GEN_S + ["r is Ok ==> (verif_param is Loop ==> loop_tail(old(self), final(self)))", "r is Ok ==> (verif_param is While ==> while_loop_shape(old(self), final(self)))"],
+    m("compile_statement", ret="r", requires=PRE, props=["C06", "C04", "C01", "C14"],
+      ensures=GEN_S + ["r is Ok ==> (verif_param is Loop ==> loop_tail(old(self), final(self)))", "r is Ok ==> (verif_param is While ==> while_loop_shape(old(self), final(self)))",
+                       # C04: let / fn statements define the name (at the current block depth) BEFORE the value is compiled, and store into exactly that symbol
+                       "r is Ok ==> (verif_param matches Statement::Let(l) ==> { let s = defined_sym(&old(self).symtab, l.name.value@, sc(old(self)).scope_depth); ends_with_ins(final(self), define_op(s.scope), s.index) })",
+                       "r is Ok ==> (verif_param matches Statement::Function(f) ==> { let s = defined_sym(&old(self).symtab, f.name@, sc(old(self)).scope_depth); ends_with_ins(final(self), define_op(s.scope), s.index) })"],
       prologue=BCAST + REFL, attrs=NODEC + ["#[verifier::rlimit(400)]"],
       rewrites=[
           dict(rule="R0", re=r"\(&mut self, stmt: Statement\)", to="(&mut self, verif_param: Statement)", expect=1, strict=True, why="parameter renamed (the match arms shadow it; loop invariants need to name it)"),
@@ -246,7 +253,10 @@ COMPILE = [
                 dict(rule="R9g", re=r"(self\.patch_jump\(\w+\);)", nth=0, to=r"\1 let ghost verif_s7 = *self;", why="ghost snapshot after the first patch"),
                 dict(rule="R9g", re=r"(self\.patch_jump\(\w+\);)", nth=-1, to=r"let ghost verif_s8 = *self; \1", why="ghost snapshot before the last patch"),
                 dict(rule="R9g", re=r"\n(\s*)Ok\(\(\)\)(\s*\}\s*)$", to=r"\n\1proof { lemma_if_shape(old(self), &verif_s1, &verif_sq, &verif_s7, &verif_s8, self, *expr.condition); }\n\1Ok(())\2", why="proof hint at the accepting exit: the shape of if")]),
-    m("compile_identifier", ret="r", requires=PRE, ensures=GEN, prologue=BCAST),
+    m("compile_identifier", ret="r", requires=PRE, prologue=BCAST, props=["C04", "C01", "C14"],
+      ensures=GEN + [# C04: a name with no visible binding is a compile error; a visible one is read / written through the instruction of its own scope and index
+                     "resolved_sym(&old(self).symtab, expr.token.literal@, sc(old(self)).scope_depth) is None ==> r is Err",
+                     "r is Ok ==> { let s = resolved_sym(&old(self).symtab, expr.token.literal@, sc(old(self)).scope_depth)->0; appended_ins(old(self), final(self), if expr.context.access is Get { load_op(s.scope) } else { store_op(s.scope) }, s.index) }"]),
     m("compile_index_expression", ret="r", requires=PRE, ensures=GEN + ["r is Ok ==> last_line_is(old(self), final(self), expr.token.line)",
                                                                        "r is Ok ==> sc(final(self)).last_ins.opcode == (if expr.context.access is Get { Opcode::GetIndex } else { Opcode::SetIndex })"], prologue=BCAST, attrs=NODEC, props=["C13", "C01", "C14"]),
     m("compile_function_literal", ret="r", requires=PRE, ensures=GEN, prologue=BCAST, attrs=NODEC,
@@ -334,6 +344,8 @@ UNIT = dict(
             "lemma_and_shape": ["C06"], "lemma_or_shape": ["C06"], "lemma_if_shape": ["C06"], "lemma_while_jumps": ["C06"], "lemma_jumps_kept": ["C06"], "lemma_loop_tail": ["C06"], "lemma_patched_jump": ["C06", "C14"], "lemma_target": ["C06", "C14"]},
     global_rewrites=RW2 + RW,
     rlimit=100,
+    multiple_errors=3,     # a failing function is re-checked once per reported error; the three big functions are expensive
+    timeout=1200,
     items=[
         dict(kind="enum", file=O, path="Opcode", attrs=["#[derive(Clone, Copy, PartialEq, Eq, Structural)]"]),
         dict(kind="struct", file=DF, path="Instructions"),
